@@ -41,6 +41,7 @@ type mspec struct {
 	Outs   int
 	Shared bool // consumed object itself is the first output
 	Dup    bool // the first fresh output is returned twice
+	Settle int  // 1 = the function acks the consumed message itself before returning, 2 = it nacks it itself (and still returns nil)
 }
 
 type caseT struct {
@@ -98,6 +99,7 @@ func genCase(t *rapid.T) caseT {
 				Outs:   rapid.IntRange(0, 3).Draw(t, "outs"),
 				Shared: rapid.IntRange(0, 3).Draw(t, "shared") == 0,
 				Dup:    rapid.IntRange(0, 4).Draw(t, "dup") == 0,
+				Settle: rapid.SampledFrom([]int{0, 0, 0, 0, 1, 2}).Draw(t, "functionSettlesItself"),
 			}
 		}
 	}
@@ -113,7 +115,7 @@ func (c caseT) canon() string {
 	for ch := 0; ch < len(c.Handlers); ch++ {
 		for k := 0; k < c.PerChan; k++ {
 			m := c.Msgs[fmt.Sprintf("c%d-%d", ch, k)]
-			fmt.Fprintf(&b, "%d%v%v.", m.Outs, m.Shared, m.Dup)
+			fmt.Fprintf(&b, "%d%v%v%d.", m.Outs, m.Shared, m.Dup, m.Settle)
 		}
 	}
 	return b.String()
@@ -136,6 +138,7 @@ func (p plainPub) Close() error { return p.p.Close() }
 
 type handled struct {
 	handler string
+	settle  int
 	ctx     context.Context
 	outs    []*message.Message
 	snaps   []lib.Snap
@@ -235,7 +238,14 @@ func runCase(t *rapid.T, c caseT) {
 				if len(outs) == 0 && len(tag)%2 == 0 {
 					outs = message.Messages{} // "nothing" as an empty slice rather than nil
 				}
-				rec := handled{handler: hs.Name, ctx: msg.Context(), outs: append([]*message.Message(nil), outs...), ctxVals: ctxVals(msg.Context())}
+				// a function may settle the consumed message itself; what it returns with a nil error is output all the same
+				switch ms.Settle {
+				case 1:
+					msg.Ack()
+				case 2:
+					msg.Nack()
+				}
+				rec := handled{handler: hs.Name, settle: ms.Settle, ctx: msg.Context(), outs: append([]*message.Message(nil), outs...), ctxVals: ctxVals(msg.Context())}
 				for _, o := range outs {
 					rec.snaps = append(rec.snaps, lib.SnapOf(o))
 					rec.ownCtx = append(rec.ownCtx, o.Context().Value(ownCtxKey{}))
@@ -452,13 +462,16 @@ func runCase(t *rapid.T, c caseT) {
 		a, n := d.State()
 		if hs.Pub < 0 {
 			wantAck := len(r.outs) == 0
+			if r.settle != 0 {
+				wantAck = r.settle == 1 // the first settlement stands
+			}
 			if a != wantAck || n == wantAck {
 				t.Fatalf("violation: no-publisher handler %s returned %d messages for %s: acked=%v nacked=%v", hs.Name, len(r.outs), tag, a, n)
 			}
 			continue
 		}
-		if !a || n {
-			t.Fatalf("violation: message %s of handler %s: acked=%v nacked=%v, want ack", tag, hs.Name, a, n)
+		if wantNack := r.settle == 2; a == wantNack || n != wantNack {
+			t.Fatalf("violation: message %s of handler %s (function settled it itself: %d): acked=%v nacked=%v", tag, hs.Name, r.settle, a, n)
 		}
 		if len(r.outs) > 0 {
 			expectPub[hs.Pub]++
